@@ -6,6 +6,8 @@ MARK = "\n<!-- PART II GENERATED FROM design_notes/ BY tools/mkdesign.py -->\n"
 p = os.path.join(ROOT, "DESIGN.md")
 t = open(p).read().split(MARK)[0].rstrip() + "\n"
 out = [t, MARK, "\n# Part II — as built\n\n", open(os.path.join(ROOT, "design_notes", "00_overview.md")).read(), "\n"]
+if os.path.exists(os.path.join(ROOT, "design_notes", "01_seeded.md")):
+    out += [open(os.path.join(ROOT, "design_notes", "01_seeded.md")).read(), "\n"]
 for f in sorted(glob.glob(os.path.join(ROOT, "design_notes", "C*.md"))):
     out += ["\n----------------------------------------------------------------------------\n\n", open(f).read().replace("\n# ", "\n## ").replace("# C", "## C", 1) if False else open(f).read()]
 open(p, "w").write("".join(out))
